@@ -326,6 +326,19 @@ fn oracle(case: &Case, want: Proto) -> Outcome {
                 _ => continue,
             };
             let at = format!("call {} element {} (offset {}, {} bytes)", ci, i, sp.start, sp.len);
+            // the property itself: an export that reproduces the input bytes is right, whatever
+            // the attribution below would have predicted (a library that repairs a listed
+            // lossy export, inside the exporter or the value types, must never be flagged)
+            if let Ok(e) = &exported {
+                if e.as_slice() == inp {
+                    o.nontrivial |= eo.nontrivial;
+                    for l in eo.labels.drain(..) {
+                        o.label(l);
+                    }
+                    o.label("exact-re-export");
+                    continue;
+                }
+            }
             let clean = eo.known.is_empty();
             o.nontrivial |= eo.nontrivial;
             for l in eo.labels.drain(..) {
